@@ -278,7 +278,7 @@ pub fn run(args: &[String]) -> i32 {
         }
         done += 1;
         let vdesc = wire::value_str(&vals[0], true);
-        let short = |s: &str| if s.len() > 300 { format!("{}…", &s[..300]) } else { s.to_string() };
+        let short = |s: &str| crate::util::trunc(s, 300).to_string();
         // datum writer
         {
             let (schema, v) = (&schema, vals[0].clone());
